@@ -745,8 +745,12 @@ func (g *Gen) stmt() *Stmt {
 			if s := g.panicky(); s != nil {
 				return s
 			}
-		case k < 42:
+		case k < 41:
 			if s := g.copyMutate(); s != nil {
+				return s
+			}
+		case k < 42:
+			if s := g.rangeMutate(); s != nil {
 				return s
 			}
 		case k < 43:
@@ -1696,4 +1700,35 @@ func (g *Gen) selectStmt() *Stmt {
 	r.Shuffle(len(s.Cs), func(i, j int) { s.Cs[i], s.Cs[j] = s.Cs[j], s.Cs[i] })
 	g.loops = g.loops[:len(g.loops)-1]
 	return &Stmt{K: "group", A: append(pre, s)}
+}
+
+// rangeMutate: a range statement whose body changes the ranged array, or the value variable of a range over structs.
+func (g *Gen) rangeMutate() *Stmt {
+	if !g.on("range-mutate") || g.noShow {
+		return nil
+	}
+	r := g.r
+	k := r.Intn(9) + 30
+	if a, ok := g.v("[3]int"); ok && !strings.Contains(a.T, ".") && r.Intn(2) == 0 {
+		g.feat("range-over-array-copy")
+		i, x := g.name("i"), g.name("x")
+		loop := &Stmt{K: "for", S: "range", Decl: []string{i, x}, Es: []E{a}, A: []*Stmt{
+			{K: "simple", Cut: true, Es: []E{{T: fmt.Sprintf("%s[(%s+1)%%3] = %s + %d", a.T, i, x, k), P: fmt.Sprintf("%s[(%s+1)%%3] = %s + %d", a.P, i, x, k)}}},
+			{K: "show", Es: []E{same(x, "int")}}, g.text(),
+		}}
+		return &Stmt{K: "group", A: []*Stmt{loop, {K: "show", Es: []E{{T: a.T + "[2]", P: a.P + "[2]", Ty: "int"}}}}}
+	}
+	if ps, ok := g.v("[]HostPt"); ok {
+		g.feat("range-value-is-a-copy")
+		p := g.name("x")
+		loop := &Stmt{K: "for", S: "in", Decl: []string{p}, Es: []E{ps}, A: []*Stmt{
+			{K: "simple", Cut: true, Es: []E{same(fmt.Sprintf("%s.X = %d", p, k), "")}},
+			{K: "show", Es: []E{same(p+".X", "int")}}, g.text(),
+		}}
+		if r.Intn(2) == 0 {
+			loop.S, loop.Decl = "range", []string{"_", p}
+		}
+		return &Stmt{K: "group", A: []*Stmt{loop, {K: "show", Es: []E{{T: ps.T + "[0].X", P: ps.P + "[0].X", Ty: "int"}}}}}
+	}
+	return nil
 }
